@@ -555,6 +555,66 @@ fn fixed_probes() -> Vec<Probe> {
     ]
 }
 
+/// Default values that are themselves CALLS of every callee form (qualified member call with an explicit
+/// receiver, method syntax, free function, struct and variant constructor — with named / default
+/// arguments of their own), on function parameters, method parameters, struct fields and variant fields.
+/// Oracle = the positional equivalent: the program that omits the default at two call sites must print
+/// what the program with the default written out prints.
+fn default_call_pairs(ctx: &mut Ctx) {
+    let decls = "type Counter = { n: int }\nextend Counter {\n  fn bump(self, times: int = 1, by: int = 1) -> int { self.n + times * by }\n}\n\
+fn add3(a: int, b: int = 2, c: int = 3) -> int { a + b * 10 + c * 100 }\n\
+type Pt = { x: int, y: int = 7 }\n\
+type Sh = | Circle(r: int, k: int = 4) | Dot\n\
+fn show_sh(s: Sh) -> int {\n  match s {\n    .Circle(r = a, k = b) -> a * 10 + b\n    .Dot -> 0\n  }\n}\n";
+    let defaults: [(&str, &str); 6] = [
+        ("qualified-member-call", "Counter.bump(Counter(10), times = 2, by = 5)"),
+        ("qualified-member-call-default", "Counter.bump(Counter(10), by = 5)"),
+        ("method-call", "Counter(10).bump(by = 3)"),
+        ("free-function-call", "add3(1, c = 5)"),
+        ("struct-constructor", "Pt(1).y"),
+        ("variant-constructor", "show_sh(Sh.Circle(r = 2))"),
+    ];
+    // (carrier, declaration with {D}, call omitting the default, call with {D} written out)
+    let carriers: [(&str, &str, &str, &str); 4] = [
+        ("function-parameter", "fn usef(a: int, d: int = {D}) -> int { a + d }\n", "usef(1)", "usef(1, {D})"),
+        ("method-parameter", "type Hd = { z: int }\nextend Hd {\n  fn m(self, d: int = {D}) -> int { self.z + d }\n}\n", "Hd(1).m()", "Hd(1).m({D})"),
+        ("struct-field", "type Sf = { a: int, d: int = {D} }\n", "Sf(1).d", "Sf(1, {D}).d"),
+        (
+            "variant-field",
+            "type Vf = | Va(a: int, d: int = {D}) | Vb\nfn vsum(v: Vf) -> int {\n  match v {\n    .Va(a = p, d = q) -> p + q\n    .Vb -> 0\n  }\n}\n",
+            "vsum(Vf.Va(a = 1))",
+            "vsum(Vf.Va(a = 1, d = {D}))",
+        ),
+    ];
+    let mut jobs: Vec<(String, String, String)> = vec![];
+    for (dn, d) in defaults {
+        for (cn, decl, omit, written) in carriers {
+            let head = format!("{decls}{}", decl.replace("{D}", d));
+            let a = format!("{head}println({omit})\nprintln({omit} + 1)\n");
+            let w = written.replace("{D}", d);
+            let b = format!("{head}println({w})\nprintln({w} + 1)\n");
+            jobs.push((format!("default-{dn}-on-{cn}"), a, b));
+        }
+    }
+    let results = par_map(&jobs, |(_, a, b)| (run_program(a), run_program(b)));
+    for ((name, a, _), (ra, rb)) in jobs.iter().zip(results) {
+        let ok = ra.outcome == Outcome::Done && rb.outcome == Outcome::Done && ra.out == rb.out && !ra.out.is_empty();
+        ctx.count(&format!("probe:{name}:{}", if ok { "ok" } else { "FAIL" }));
+        if !ok {
+            let show = |r: &RunResult| match &r.outcome {
+                Outcome::Done => format!("prints {:?}", r.out),
+                Outcome::Rejected(t) => format!("rejected: {}", t.lines().filter(|l| l.starts_with("error")).collect::<Vec<_>>().join(" | ")),
+                o => o.tag(),
+            };
+            ctx.spec_fail(format!(
+                "probe {name}: the call that omits the default {} but the same call with the default written out {}\n--- main.abra\n{a}",
+                show(&ra),
+                show(&rb)
+            ));
+        }
+    }
+}
+
 fn main() {
     let mut ctx = Ctx::from_env("C18");
     let max_n = if ctx.quick() { 3 } else { 4 };
@@ -676,5 +736,6 @@ fn main() {
         }
     }
     run_probes(&mut ctx, &fixed_probes());
+    default_call_pairs(&mut ctx);
     ctx.finish();
 }
